@@ -7,7 +7,9 @@
     reported number of large-volume steps is the number of extra pipetting pairs.
     Statements only; proofs live in Proofs/HistoryProofs.v.
     (Snapshot / aliasing semantics of the Python arrays and the text of [report] are observed by the
-    test harness; they cannot be stated in a value model.) *)
+    test harness; they cannot be stated in a value model.  In particular the report TEXT is not modelled:
+    C11_report_length / _entry / _append at the end of this file are facts about the list [report_entries]
+    the text is built from, see the comment there.) *)
 From Robo Require Import ReportProofs.
 From Robo Require Import Prelude Str Wells Utils Labware Tips Records Partition Params Worklist
   EvoCmd Program HistoryProofs.
@@ -380,13 +382,24 @@ Proof.
   cbv zeta. split; [repeat constructor|]. vm_compute. repeat split.
 Qed.
 
-(** The printable report: one block per history entry, in history order; the label line is present exactly for
-    non-empty labels; the numbers are the snapshot rounded to one decimal.  (The text layout of numpy's array
-    printing is observed by the harness, which parses the blocks back and compares them with [report_entries].) *)
+(** The printable report (review item M8).
+    THE REPORT TEXT IS NOT MODELLED.  [report_entries L] (Model/Labware.v, defined as a [map] over [lw_hist L]) is
+    the LIST OF ENTRIES THE PRINTABLE REPORT IS BUILT FROM: per history entry the label line (present exactly
+    for non-empty labels) and the snapshot rounded to one decimal.  The string that [Labware.report] returns -
+    block separators, numpy's array layout - is not a Coq object; the clause "the printable report lists the
+    same entries in the same order" is checked by the harness ORACLE only, which parses the blocks of the real
+    report text back and compares them with [report_entries].
+    The three theorems below are therefore FACTS ABOUT THAT LIST, not about the text: same length as the
+    history, i-th entry computed from the i-th history entry, logging appends exactly one entry.  They follow
+    from [map_length] / [map_nth] / [map_app] and say nothing beyond the definition of [report_entries]; what
+    they contribute is that the list the oracle compares against is in one-to-one, order-preserving
+    correspondence with the history that the other C11 theorems speak about. *)
+(** fact about the list [report_entries]: as many entries as history entries *)
 Theorem C11_report_length : forall L, length (report_entries L) = length (lw_hist L).
 Proof. exact report_entries_length. Qed.
 Print Assumptions C11_report_length.
 
+(** fact about the list [report_entries]: the i-th entry is the i-th history entry (label, tenths) *)
 Theorem C11_report_entry : forall L i d, i < length (lw_hist L) ->
   nth i (report_entries L) d =
     (match fst (nth i (lw_hist L) (None, [])) with
@@ -397,7 +410,8 @@ Theorem C11_report_entry : forall L i d, i < length (lw_hist L) ->
 Proof. exact report_entries_nth. Qed.
 Print Assumptions C11_report_entry.
 
-(** logging an entry appends exactly one block to the report and leaves the earlier blocks alone *)
+(** fact about the list [report_entries]: logging an entry appends exactly one entry to the list and leaves
+    the earlier entries alone *)
 Theorem C11_report_append : forall L h,
   report_entries (set_hist L (lw_hist L ++ [h])%list) =
   (report_entries L ++ [(match fst h with Some l => if String.eqb l "" then None else Some l | None => None end,
